@@ -229,6 +229,13 @@ def build(desc, shuffle=False):
                         src = f"p{me[1]}" if rng.random() < 0.5 else Pin(f"p{me[1]}")
                         tgt = f"p{other[1]}" if rng.random() < 0.5 else Pin(f"p{other[1]}")
                         sts[i] = models[i].put(src, (sts[other[0]], tgt))
+                    elif comps[i].get("wrap") and comps[i].get("n", 0) > 0:
+                        # the component placed as a SUB-SOLVER of its own (every pin exposed under its own name)
+                        with lk.Solver(name=f"W{i}") as sub:
+                            inner = models[i].put()
+                            for k in range(comps[i]["n"]):
+                                lk.Pin(f"p{k}").put(inner.pin[f"p{k}"])
+                        sts[i] = sub.put()
                     else:
                         sts[i] = models[i].put()
             for (a, b) in conns:
